@@ -12,6 +12,7 @@ import (
 	"bytes"
 	"crypto/rand"
 	"encoding/json"
+	"errors"
 	"fmt"
 	"io"
 	mrand "math/rand"
@@ -38,6 +39,7 @@ type scenario struct {
 	Bits      string `json:"bits"` // sample | all
 	NSample   int    `json:"nsample"`
 	Chunk     string `json:"chunk"`
+	Cut       int    `json:"cut"` // chunk = split: the first segment ends Cut bytes after the start of the mark (may be negative)
 	Legacy    bool   `json:"legacy"`
 	N         int    `json:"n"`
 	Seed      int64  `json:"seed"`
@@ -68,6 +70,8 @@ func main() {
 		switch s.Kind {
 		case "case":
 			runCase(&s)
+		case "freshfault":
+			runFreshFault(&s)
 		case "fresh":
 			runFresh(&s)
 		}
@@ -241,6 +245,18 @@ func oneCase(b *o4.Bridge, s *scenario, rng *mrand.Rand, arg int) bool {
 				l.A.Deliver(out[:k])
 				out = out[k:]
 			}
+		case "split":
+			k := len(resp) - 32 + s.Cut
+			if k < 1 {
+				k = 1
+			}
+			if k >= len(out) {
+				k = len(out) - 1
+			}
+			l.A.Deliver(out[:k])
+			// the client must have looked at the first segment before the second arrives
+			l.WaitFor(5*time.Second, func(a, _ wire.State) bool { return len(dch) > 0 || (a.Parked && a.Inbox == 0) })
+			l.A.Deliver(out[k:])
 		default:
 			l.A.Deliver(out)
 		}
@@ -301,7 +317,7 @@ func oneCase(b *o4.Bridge, s *scenario, rng *mrand.Rand, arg int) bool {
 	select {
 	case d := <-dch:
 		finish(d)
-		if d.c != nil {
+		if d.err == nil && d.c != nil {
 			d.c.Close()
 		}
 	case <-time.After(10 * time.Second):
@@ -316,6 +332,130 @@ report:
 }
 
 // runFresh: n real clients handshake concurrently with one real server factory; ephemeral keys must all differ
+// runFreshFault: ephemeral keys must be fresh ACROSS connections whatever happened to the earlier ones: handshakes
+// that break at a particular point (the server's response write fails after k bytes; the client gets garbage or EOF
+// instead of a response) alternate with good ones on the same factories.  Every X' the client factory and every Y'
+// the server factory ever put on a wire must be distinct.
+func runFreshFault(s *scenario) {
+	b, err := o4.NewBridge("", 0, false)
+	if err != nil {
+		w.Emit(vt.Ev{"event": "DriverDead", "why": err.Error()})
+		return
+	}
+	defer b.Close()
+	rng := mrand.New(mrand.NewSource(s.Seed))
+	xs, ys := map[string]bool{}, map[string]bool{}
+	nx, ny := 0, 0
+	allOK := true
+	breakAt := []int{0, 1, 31, 32, 33, 63, 64, 65, 96, 200}
+	for i := 0; i < s.N; i++ {
+		l := wire.NewLink(true, 0)
+		var first [2][]byte
+		var fmu sync.Mutex
+		l.Hook = func(c *wire.Conn, what string, data []byte) {
+			if what != "write" {
+				return
+			}
+			k := 0
+			if c == l.B {
+				k = 1
+			}
+			fmu.Lock()
+			first[k] = append(first[k], data...)
+			fmu.Unlock()
+		}
+		mode := i % 3 // 0: good, 1: the server's write breaks, 2: the client is answered with garbage
+		if i == s.N-1 {
+			mode = 0
+		}
+		switch mode {
+		case 0, 1:
+			if mode == 1 {
+				l.B.FailWritesAfter(breakAt[rng.Intn(len(breakAt))], errors.New("connection reset by peer (scripted)"))
+			}
+			sch := make(chan error, 1)
+			var sc net.Conn
+			go func() { c, err := b.SF.WrapConn(l.B); sc = c; sch <- err }()
+			cch := make(chan error, 1)
+			var cc net.Conn
+			go func() { c, err := dialReal(l.A, b.ID.PublicOnly(), i%2 == 1); cc = c; cch <- err }()
+			var serr, cerr error
+			if mode == 1 {
+				// the server's write breaks; it then discards input until its (virtual) drop deadline or the end of
+				// the connection, the client waits for the rest of the response: both parked -> the peer hangs up
+				l.WaitFor(10*time.Second, func(a, b wire.State) bool { return len(sch) > 0 || (a.Parked && b.Parked) })
+				l.A.Close()
+			}
+			select {
+			case serr = <-sch:
+			case <-time.After(20 * time.Second):
+				w.Emit(vt.Ev{"event": "DriverDead", "why": "server handshake did not return"})
+				return
+			}
+			if serr != nil {
+				l.A.Close()
+				l.B.Close()
+			}
+			select {
+			case cerr = <-cch:
+			case <-time.After(20 * time.Second):
+				w.Emit(vt.Ev{"event": "DriverDead", "why": "client handshake did not return"})
+				return
+			}
+			if mode == 0 && (serr != nil || cerr != nil) {
+				allOK = false
+			}
+			if mode == 1 && serr == nil {
+				allOK = false // a broken write must fail the handshake
+			}
+			if serr == nil && sc != nil {
+				sc.Close()
+			}
+			if cerr == nil && cc != nil {
+				cc.Close()
+			}
+		case 2:
+			cch := make(chan error, 1)
+			go func() {
+				c, err := dialReal(l.A, b.ID.PublicOnly(), i%2 == 1)
+				if err == nil {
+					c.Close()
+				}
+				cch <- err
+			}()
+			// read the request, answer with garbage and hang up
+			buf := make([]byte, 8192)
+			l.B.Read(buf)
+			junk := make([]byte, 64+rng.Intn(200))
+			rng.Read(junk)
+			l.B.Write(junk)
+			l.B.Close()
+			select {
+			case err := <-cch:
+				if err == nil {
+					allOK = false
+				}
+			case <-time.After(20 * time.Second):
+				w.Emit(vt.Ev{"event": "DriverDead", "why": "client handshake did not return after garbage"})
+				return
+			}
+		}
+		l.A.Close()
+		l.B.Close()
+		fmu.Lock()
+		if len(first[0]) >= 32 {
+			xs[string(first[0][:32])] = true
+			nx++
+		}
+		if mode != 2 && len(first[1]) >= 32 {
+			ys[string(first[1][:32])] = true
+			ny++
+		}
+		fmu.Unlock()
+	}
+	w.Emit(vt.Ev{"event": "Fresh", "n": s.N, "distinct_x": len(xs) == nx && nx >= s.N/2, "distinct_y": len(ys) == ny && ny >= s.N/3, "all_ok": allOK, "nx": nx, "ny": ny})
+}
+
 func runFresh(s *scenario) {
 	b, err := o4.NewBridge("", 0, false)
 	if err != nil {
